@@ -16,6 +16,7 @@
 (*     classical group the ID supports without sending a share, reject     *)
 (*     with 0/1/2 retry configs, reject after HRR, no ECH support};        *)
 (*     every HelloRetryRequest without / with a cookie of 1, 32, 255 bytes *)
+(*   x TLS 1.3 cipher suite the server selects (of those the hello offers) *)
 (*   x certificate {ServerName only, public name only, both, neither},     *)
 (* runs the ECH state machine on MODEL-built bytes (a small hello with the *)
 (* ID's real groups/shares; "encryption" is a byte-wise involution so that *)
@@ -30,6 +31,7 @@ CONSTANTS CfgIds,      \* config_id values
           NameSets,    \* subset of 1..Len(NamePairs)
           ShapeIdx,    \* subset of 1..Len(ListShapes): shapes of the client's ECHConfigList
           UsageIdx,    \* subset of 1..Len(Usages): how the caller drives the UConn
+          SuiteIds,    \* TLS 1.3 cipher suites the server selects (of those the ID's hello offers)
           CookieLens,  \* lengths of the cookie a HelloRetryRequest carries (0 = none)
           Sample,      \* 99: the full product of the sets above;
                        \* 10..15 (thorough): config_id x AEAD x maximum_name_length reduced to a Latin square (a third), the name pair
@@ -110,6 +112,10 @@ ServerVariants(id) ==
 \* the name pair tied to it
 Rank(x, S) == Cardinality({y \in S : y < x})
 \* and the list shape tied to it (every shape occurs with every ID, server behaviour and certificate)
+\* the suite the server selects is tied to the Latin variant in both tiers: every suite with every ID, server behaviour, certificate
+\* (thorough: and list shape, usage, cookie)
+KeepSuite(c, m, su) == Sample = 99 \/ Rank(su, SuiteIds) = (Rank(c, CfgIds) + 2 * Rank(m, MaxLens) + Sample) % Cardinality(SuiteIds)
+OfferedSuites(id) == SuiteIds \cap Range(IdTable[id].suites)
 Keep(c, a, m, n, sh, u) ==
    \/ Sample = 99
    \/ /\ (Rank(c, CfgIds) + Rank(a, AeadIds) + Rank(m, MaxLens)) % 3 = (Sample % 10) % 3
@@ -126,14 +132,15 @@ KeepCookie(q, sv) == \/ Sample = 99
                         /\ sv.cookie = 0 \/ Rank(q[5], ShapeIdx) = (Rank(q[2], CfgIds) + 2 * Rank(q[3], AeadIds) + Sample) % Cardinality(ShapeIdx)
                      \/ /\ Sample < 10
                         /\ Rank(sv.cookie, CookieLens) = (Rank(q[2], CfgIds) + 3 * Rank(q[3], AeadIds) + Sample) % Cardinality(CookieLens)
-Combos(id) == {p \in {q \in NameSets \X CfgIds \X AeadIds \X MaxLens \X ShapeIdx \X UsageIdx : Keep(q[2], q[3], q[4], q[1], q[5], q[6])}
+Combos(id) == {p \in {q \in NameSets \X CfgIds \X AeadIds \X MaxLens \X ShapeIdx \X UsageIdx \X OfferedSuites(id) :
+                            Keep(q[2], q[3], q[4], q[1], q[5], q[6]) /\ KeepSuite(q[2], q[4], q[7])}
                      \X ServerVariants(id) : KeepCookie(p[1], p[2])}
 MkVariant(id, q, sv, ct) == [id |-> id, sname |-> NamePairs[q[1]].s, pubname |-> NamePairs[q[1]].p, cfgid |-> q[2], aead |-> q[3], maxlen |-> q[4],
                              server |-> sv.server, hrr_group |-> sv.hrr_group, nretry |-> sv.nretry, cookie |-> sv.cookie, cert |-> ct,
-                             shape |-> ListShapes[q[5]], usage |-> Usages[q[6]]]
+                             shape |-> ListShapes[q[5]], usage |-> Usages[q[6]], suite |-> q[7]]
 VariantsOf(id) == {MkVariant(id, p[1], p[2], ct) : p \in Combos(id), ct \in CertKinds}
 Variants == UNION {VariantsOf(id) : id \in Capable}
-Scenario(v) == [id |-> v.id, sname |-> v.sname, pubname |-> v.pubname, server |-> v.server, hrr_group |-> v.hrr_group, cookie |-> v.cookie, cert |-> v.cert,
+Scenario(v) == [id |-> v.id, sname |-> v.sname, pubname |-> v.pubname, server |-> v.server, hrr_group |-> v.hrr_group, cookie |-> v.cookie, cert |-> v.cert, suite |-> v.suite,
                 cfgid |-> v.cfgid, aead |-> v.aead, maxlen |-> v.maxlen, nretry |-> v.nretry, shape |-> v.shape, usage |-> v.usage,
                 cfg_list |-> ModelList(v),
                 retry_list |-> IF v.nretry = 0 THEN <<>> ELSE EncCfgList([k \in 1..v.nretry |-> ModelCfg(v, k)])]
@@ -162,7 +169,9 @@ SrvOnCH2 == /\ srv.pc = "wait_ch2" /\ Len(obs.chs) = 2
             /\ UNCHANGED <<scn, cli>>
 SrvSendParams == srv.pc = "send_params" /\ srv' = S_SendParams(srv, scn) /\ UNCHANGED <<scn, cli, obs>>
 ProcessServerHello == /\ cli.pc = "wait_sh" /\ srv.pc = "sent"
-                      /\ cli' = C_ProcessServerHello(cli, IF Mutant = "ignore-signal" THEN TRUE ELSE srv.accepted, scn)
+                      /\ cli' = C_ProcessServerHello(cli, IF Mutant = "ignore-signal" THEN TRUE
+                                                                    ELSE ReadSignal(AcceptSignal(srv.accepted, scn.suite),
+                                                                                    IF Mutant = "kdf-hash" THEN "sha256" ELSE ClientSignalHash(scn)), scn)
                       /\ obs' = (IF cli.nch = 1 THEN O_Record(obs, 20, <<1>>) ELSE obs) /\ UNCHANGED <<scn, srv>>
 VerifyCertificate == /\ cli.pc = "verify"
                      /\ cli' = (IF Mutant = "verify-servername-always"
@@ -185,6 +194,6 @@ ScenarioSane == /\ scn.sname # scn.pubname /\ ~Contains(scn.pubname, scn.sname)
 Progress == Terminal => Len(obs.chs) = (IF SrvSendsHRR(scn) THEN 2 ELSE 1)
 
 Emit == Terminal => PrintT(<<"SCN", ToJson([id |-> scn.id, sname |-> scn.sname, pubname |-> scn.pubname, cfgid |-> scn.cfgid, aead |-> scn.aead,
-                                              maxlen |-> scn.maxlen, server |-> scn.server, hrr_group |-> scn.hrr_group, cookie |-> scn.cookie, nretry |-> scn.nretry,
+                                              maxlen |-> scn.maxlen, server |-> scn.server, hrr_group |-> scn.hrr_group, cookie |-> scn.cookie, suite |-> scn.suite, nretry |-> scn.nretry,
                                               cert |-> scn.cert, shape |-> scn.shape, usage |-> scn.usage, minver |-> 0])>>)
 =============================================================================
